@@ -1063,6 +1063,18 @@ def evaluate(cases, rep, tag="cases", do_oracle=True):
             twin_check(case, io, rep, fails)
             if do_oracle:
                 oracle(case, sv, io, rep, fails)
+        # READ-ORDER LEG (common_cases.late_reads; every third case): every subtotal output read after
+        # every other public read of a second partition is the one of the fresh partition compared above
+        if int(case.get("k", 0)) % 3 == 0:
+            from harness.props import common_cases as cc
+            population, late = cc.late_reads({"response": case["_resp"], "transforms": build(case)[2],
+                                              "k": case.get("k", 0)}, list(io["v"]), io["v"])
+            rep.dist("late-reads:" + ("strand" if io["ndim"] == 1 else "slice"))
+            for n, a, b, culprits in late[:1]:
+                fails.append(("%s depends on what was read before" % n,
+                              {"fresh": a, "after_other_reads": b, "population": population,
+                               "single_earlier_reads_that_change_it": culprits},
+                              {"measure": n, "oracle": "order_independent"}))
         nsub = sum(len(m) for m in io.get("msubs", []))
         nt = nsub > 0 and all(x > 0 for x in (io["dims"][0::2]))
         rep.count_case(replayable(case), nt)
